@@ -309,7 +309,7 @@ int filterDimension(size_t r5, size_t r4, size_t r3, size_t r2, size_t r1, size_
 
  **/
 /*-------------------------------------------------------------------------*/
-unsigned char* SZ_compress_args(int dataType, void *data, size_t *outSize, int errBoundMode, double absErrBound,
+static unsigned char* SZ_compress_args_perCall(int dataType, void *data, size_t *outSize, int errBoundMode, double absErrBound,
 double relBoundRatio, double pwrBoundRatio, size_t r5, size_t r4, size_t r3, size_t r2, size_t r1)
 {
 	if(confparams_cpr == NULL)
@@ -414,6 +414,23 @@ double relBoundRatio, double pwrBoundRatio, size_t r5, size_t r4, size_t r3, siz
 		printf("Error: dataType can only be SZ_FLOAT, SZ_DOUBLE, SZ_INT8/16/32/64 or SZ_UINT8/16/32/64.\n");
 		return NULL;
 	}
+}
+
+unsigned char* SZ_compress_args(int dataType, void *data, size_t *outSize, int errBoundMode, double absErrBound,
+double relBoundRatio, double pwrBoundRatio, size_t r5, size_t r4, size_t r3, size_t r2, size_t r1)
+{
+	if(confparams_cpr == NULL)
+		SZ_Init(NULL);
+	//the kernels record the bound of the current call in confparams_cpr (it is serialized into the stream); the configured
+	//defaults, which SZ_compress() passes here, are put back afterwards so that they do not depend on earlier calls
+	int confErrBoundMode = confparams_cpr->errorBoundMode;
+	double confAbsErrBound = confparams_cpr->absErrBound;
+	double confPwrBoundRatio = confparams_cpr->pw_relBoundRatio;
+	unsigned char* newByteData = SZ_compress_args_perCall(dataType, data, outSize, errBoundMode, absErrBound, relBoundRatio, pwrBoundRatio, r5, r4, r3, r2, r1);
+	confparams_cpr->errorBoundMode = confErrBoundMode;
+	confparams_cpr->absErrBound = confAbsErrBound;
+	confparams_cpr->pw_relBoundRatio = confPwrBoundRatio;
+	return newByteData;
 }
 
 int SZ_compress_args2(int dataType, void *data, unsigned char* compressed_bytes, size_t *outSize,
